@@ -14,9 +14,11 @@ RUNNER = os.path.join(ML, "runner")
 TRUSTED_BASE = [
     "Coq 8.16.1 kernel incl. its bytecode VM (vm_compute in the in-Coq case evaluation, refutation witnesses and finite sweeps); no native_compute",
     "axioms: none (every Print Assumptions reports 'Closed under the global context'; standard library only: List, NArith, ZArith, Lia, Bool, Byte, PeanoNat, Zify*)",
-    "tools/gen_tables.py + tools/rsexpr.py: translator of the Rust sources into Model/Generated.v — enum/constant tables; the decoder's opcode dispatch, the request variant each body parser builds, the handler's routing (request variant -> handler -> filter); and, as Rust integer expressions with overflow = None (Model/RustInt.v), header_valid, request_valid, every comparison with the item size limit, the expiry tests of check_if_expired, the re-dating test of a delayed flush, the counter arithmetic of add_delta, and the field order/widths of both headers. Regex/recursive-descent over the source text, not a Rust front end: a function whose shape it does not recognise is reported (coverage.not_translated) and left to the correspondence check alone",
+    "tools/gen_tables.py + tools/rsexpr.py: translator of the Rust sources into Model/Generated.v — enum/constant tables; the decoder's opcode dispatch, the request variant each body parser builds, the handler's routing (request variant -> handler -> filter); and, as Rust integer expressions with overflow = None (Model/RustInt.v), header_valid, request_valid, every comparison with the item size limit, the expiry tests of check_if_expired, the re-dating test of a delayed flush, the counter arithmetic of add_delta, get_value_len and the body lengths the incr/decr and set parsers require, and the field order/widths of both headers. Regex/recursive-descent over the source text, not a Rust front end: a function whose shape it does not recognise is reported (coverage.not_translated) and left to the correspondence check alone",
     "extraction: Require Extraction + ExtrOcamlBasic (Extract Inductive for bool, option, unit, list, prod, sumbool; no Extract Constant), OCaml 4.13.1, runner/runner.ml glue (hex/decimal parsing, Obj.magic int<->byte self-checked at start-up); the glue is cross-checked by evaluating a sample of every kind of case inside Coq",
     "correspondence: Rust harness (generators, canonicalisation, seq connection emulation, schedulers, logging Cache interposers Spy/ScanSpy/OuterSpy, timed probes) — differential testing, bounds the assurance",
+    "the memcrsd binary run by the configuration profile is built by the check from /repo (same flags as the harness); /proc/net/tcp (accept-queue lengths, mlimit profile) and /proc/self/task/*/stat (blocked-client detection) are read as the kernel reports them",
+    "Model/Listeners.v assumes of tokio what the mlimit profile observes: the semaphore hands a freed permit to the longest waiter; on a current-thread runtime a spawned handler runs only when the accept loop next waits",
     "hooks in /repo under cfg(memcrs_verif) (usage accessor, read begin/end + sizes, TracedMap yields, counter yields, per-connection write count): assumed to observe without changing behaviour",
     "modelled, not verified: DashMap (per-call atomicity; len and scans as atomic snapshots in the concurrent policy model), bytes::BytesMut, tokio, kernel TCP, clap/byte-unit parsing, SmallRng and map iteration order (arbitrary oracle), str::parse::<u64> (restated as parse_u64)",
     "model assumptions: clock < 2^63 and constant inside a concurrent window; value lengths < 2^32-300; stored bytes far below 2^64 (the policy's usage counter is a mathematical integer in the concurrent model: proved never negative, assumed < 2^64); fewer than 2^64 stores; the eviction loop is fuel-bounded in the concurrent model",
@@ -517,9 +519,9 @@ PROPS = {
             "monitor_kinds": ["STUCK", "SLOW"], "relevant": "RMWT"},
     "C02": {"seq": [("cas", 1024, None, 80, 50), ("mix", 1024, None, 30, 40), ("ttl", 1024, None, 30, 40),
                     ("counter", 1024, None, 30, 40)], "conc": [("base", 200)], "pol": 100,
-            "monitor_kinds": ["STUCK", "NONLIN"], "relevant": "RMWTP"},
+            "monitor_kinds": ["STUCK", "NONLIN", "VANISH"], "relevant": "RMWTP"},
     "C03": {"seq": [("cas", 1024, None, 20, 30)], "conc": [("base", 500)], "pol": 150, "relevant": "RMTP"},
-    "C04": {"seq": [("counter", 1024, None, 20, 30)], "conc": [("rmw", 500)], "relevant": "RMT",
+    "C04": {"seq": [("counter", 1024, None, 20, 30)], "conc": [("rmw", 500)], "pol": 40, "relevant": "RMTP",
             "known_classes": True},
     "C16": {"seq": [("policy", 1024, 200, 10, 30)], "conn": [("idle", 1024, None, 3, 14)],
             "conc": [("base", 250), ("rmw", 250)], "sweep": 300, "pol": 100, "relevant": "TS",
@@ -542,7 +544,7 @@ PROPS = {
                      ("big", 1048576, None, 4, 14), ("idle", 1024, None, 3, 14)],
             "slow": True, "monitor_kinds": ["SLOW"], "relevant": "RSM"},
     "C10": {"seq": [("malformed", 1024, None, 80, 30), ("malformed", 64, None, 40, 30), ("counter", 1024, None, 30, 40),
-                    ("cas", 1024, None, 30, 40)],
+                    ("cas", 1024, None, 30, 40), ("policy", 1024, 200, 10, 30)],
             "conn": [("malformed", 100, None, 30, 25)], "relevant": "RSM"},
     "C11": {"seq": [("mix", 1024, None, 80, 40), ("quiet", 1024, None, 40, 40), ("counter", 1024, None, 40, 40),
                     ("malformed", 100, None, 40, 30), ("wide", 1024, None, 30, 40)],
@@ -555,12 +557,14 @@ PROPS = {
             "conn": [("malformed", 100, None, 40, 25), ("malformed", 1024, None, 20, 25), ("cuts", 64, None, 20, 25)],
             "cfg": 6, "relevant": "RSMW"},
     "C14": {"seq": [("policy", 1024, 100, 40, 60), ("policy", 1024, 300, 40, 60), ("policy", 1024, 30, 20, 60),
-                    ("policy", 1024, 1000, 30, 60), ("counter", 1024, 120, 20, 50), ("flush", 1024, 200, 20, 50)],
+                    ("policy", 1024, 1000, 30, 60), ("counter", 1024, 120, 20, 50), ("flush", 1024, 200, 20, 50),
+                    ("crowd", 600, 1000, 10, 120)],
             "conn": [("policy", 1024, 300, 15, 30)], "pol": 150, "relevant": "UMRP",
-            "monitor_kinds": ["ACCT", "BOUND", "STUCK", "NONLIN"]},
+            "monitor_kinds": ["ACCT", "BOUND", "STUCK", "NONLIN", "VANISH"]},
     "C15": {"seq": [("policy", 1024, 100000, 40, 80), ("policy", 1024, 400, 40, 60), ("ttl", 1024, 500, 30, 60),
-                    ("flush", 1024, 500, 30, 60), ("cas", 1024, 500, 30, 50), ("counter", 1024, 500, 20, 50)],
-            "pol": 150, "relevant": "UMRP", "monitor_kinds": ["ACCT", "BOUND", "STUCK", "NONLIN"]},
+                    ("flush", 1024, 500, 30, 60), ("cas", 1024, 500, 30, 50), ("counter", 1024, 500, 20, 50),
+                    ("crowd", 600, 1000, 10, 120)],
+            "pol": 150, "relevant": "UMRP", "monitor_kinds": ["ACCT", "BOUND", "STUCK", "NONLIN", "VANISH"]},
     "C17": {"seq": [("mix", 1024, None, 10, 20)], "limit": 8, "mlimit": 6, "cfg": 6, "relevant": "VS", "no_minimize": True},
     "C20": {"seq": [("mix", 1024, 1000000, 30, 40), ("mix", 1024, None, 10, 30)], "cfg": 8, "mlimit": 4, "relevant": "RSCT"},
     "C18": {"seq": [("cuts", 1024, None, 60, 30), ("malformed", 1024, None, 40, 30)],
